@@ -844,6 +844,38 @@ Proof.
   split; [apply Permutation_refl|]. split; [apply cartesian_nodup|apply cartesian_length].
 Qed.
 
+(* extraction succeeds exactly when every condition key is in one of the documented ranges; otherwise the exception of
+   the first offending key escapes (ValueError, or NotImplementedError for a package-like key) *)
+Theorem extract_accepts e : (exists r, extract e = Ok r) <-> Forall okk (cond_keys_of e).
+Proof.
+  split.
+  - intros [r H]. now apply extract_iff in H.
+  - intros H. exists (extract_spec e). now apply extract_iff.
+Qed.
+
+Lemma categorise_exn ks : forall r err, categorise ks r = Exn err ->
+  exists k, In k ks /\ category_of k = Exn err.
+Proof.
+  induction ks as [|k t IH]; intros r err H; simpl in H; [discriminate|].
+  destruct (category_of k) as [c|e'] eqn:E; simpl in H.
+  - destruct (IH _ _ H) as [k' [Hin Hk']]. exists k'. split; [now right|assumption].
+  - injection H as H. subst. exists k. split; [now left|assumption].
+Qed.
+
+Theorem extract_rejects e san err : extract_tree e san = Exn err ->
+  exists k, In (AKey k) (atoms e) /\ category_of k = Exn err /\ (err = ValueErr \/ err = NotImpl).
+Proof.
+  unfold extract_tree. intros H. destruct (extract e) as [r|err'] eqn:E.
+  - exfalso. simpl in H. pose proof E as E'. apply extract_iff in E'. destruct E' as [_ Er]. subst r.
+    destruct san; [|discriminate]. rewrite sanitize_ok in H by apply extract_spec_num. discriminate.
+  - simpl in H. injection H as H. subst err'. unfold extract in E. apply categorise_exn in E.
+    destruct E as [k [Hin Hk]]. exists k. split; [now apply In_cond_keys|]. split; [assumption|].
+    destruct (category_total k) as [[n Hn]|[[_ Hc]|[_ Hc]]].
+    + destruct (ranges_partition _ Hn) as [_ [_ [_ [_ [[c Hc]|Hc]]]]]; rewrite Hc in Hk; [discriminate|injection Hk as Hk; now left].
+    + rewrite Hc in Hk. injection Hk as Hk. now right.
+    + rewrite Hc in Hk. injection Hk as Hk. now left.
+Qed.
+
 (* ================================================================== canonical numerals satisfy key_inj *)
 (* a numeral without leading zeros ("0" itself is canonical) *)
 Definition canonical (k : text) : bool :=
@@ -924,6 +956,45 @@ Qed.
 
 Theorem canonical_key_inj l : forallb canonical l = true -> key_inj l.
 Proof. intros H a b Ha Hb. rewrite forallb_forall in H. apply canonical_inj; now apply H. Qed.
+
+(* ================================================================== every number n >= 0 is the value of a (canonical) key *)
+Fixpoint numeral_fuel (f : nat) (n : Z) : text :=
+  match f with
+  | O => [48%N]
+  | Datatypes.S f' => if (n <? 10)%Z then [Z.to_N (48 + n)] else numeral_fuel f' (n / 10) ++ [Z.to_N (48 + n mod 10)]
+  end.
+Definition numeral (n : Z) : text := numeral_fuel (Datatypes.S (Z.to_nat n)) n.
+
+Lemma digits_val_app l : forall acc c, is_ascii_digit c = true ->
+  digits_val acc (l ++ [c]) = match digits_val acc l with Ok v => Ok (v * 10 + Z.of_N (c - 48))%Z | Exn e => Exn e end.
+Proof.
+  induction l as [|a t IH]; intros acc c Hc; simpl.
+  - now rewrite Hc.
+  - destruct (is_ascii_digit a); [now apply IH|reflexivity].
+Qed.
+
+Lemma key_int_digits k n : key_int k = Ok n -> digits_val 0 k = Ok n /\ k <> [].
+Proof. destruct k; [discriminate|]. intros H. split; [exact H|discriminate]. Qed.
+Lemma key_int_nonempty k : k <> [] -> key_int k = digits_val 0 k.
+Proof. destruct k; [intros H; now contradiction H|reflexivity]. Qed.
+
+Lemma numeral_fuel_ok f : forall n, (0 <= n)%Z -> Z.to_nat n < f -> key_int (numeral_fuel f n) = Ok n.
+Proof.
+  induction f as [|f IH]; intros n Hn Hf; [lia|].
+  cbn [numeral_fuel]. destruct (Z.ltb_spec n 10) as [Hlt|Hge].
+  - unfold key_int. cbn [digits_val]. assert (Hd : is_ascii_digit (Z.to_N (48 + n)) = true).
+    { unfold is_ascii_digit. apply andb_true_iff. split; apply N.leb_le; lia. }
+    rewrite Hd. f_equal. lia.
+  - assert (Hq : (0 <= n / 10 < n)%Z) by (Z.div_mod_to_equations; lia).
+    pose proof (IH (n / 10)%Z ltac:(lia) ltac:(lia)) as E. apply key_int_digits in E. destruct E as [E Hne].
+    assert (Hd : is_ascii_digit (Z.to_N (48 + n mod 10)) = true).
+    { unfold is_ascii_digit. apply andb_true_iff. split; apply N.leb_le; Z.div_mod_to_equations; lia. }
+    rewrite key_int_nonempty by (intros H; apply app_eq_nil in H; destruct H; discriminate).
+    rewrite digits_val_app by assumption. rewrite E. f_equal. Z.div_mod_to_equations. lia.
+Qed.
+
+Theorem every_number_has_a_key n : (0 <= n)%Z -> key_int (numeral n) = Ok n.
+Proof. intros H. apply numeral_fuel_ok; [assumption|lia]. Qed.
 
 (* ================================================================== instances (the hypotheses are satisfiable) *)
 Definition t901 : text := [57;48;49]%N.
